@@ -19,7 +19,7 @@ Definition union_of (u : list item) (results : list (list item)) : list item :=
     an OPTIONAL sub-query without rows leaves the outer item by itself *)
 Definition nested (s : store) (e : env) (name : nat) (items : list item) (sq : query) : list (list item) :=
   flat_map (fun it =>
-              let inner := sem s ((name, it) :: e) sq in
+              let inner := sem s (e ++ [(name, it)]) sq in
               match inner with
               | [] => if q_opt sq then [[it]] else []
               | _ => map (cons it) inner
